@@ -176,7 +176,7 @@ def read_and_compare(ctx, sc, r, label, path, cst, req, expected, AFMWriter, AFM
     holder = {}
 
     def read_file():
-        holder["fm"] = AFMReader(path).transform()
+        holder["fm"] = fmt.read_twice(AFMReader, path)
         return holder["fm"]
     iread = sx.dumps(fmt.result_pfm(read_file))
     r.record(label, rreq, iread, mread)
